@@ -63,7 +63,7 @@ type DataOptions struct {
 	MaxEntities  int
 	IDs          IDAlphabet
 	NullChance   int  // 1/n for nullable positions (0 = never)
-	NullObjElems bool // allow null elements inside lists of objects (hits an executor defect on stitch paths)
+	NullObjElems bool // allow null elements inside lists of objects (stream null-object-elements of C01: the element keeps its place, nothing is stitched there)
 }
 
 func DefaultData() DataOptions { return DataOptions{MaxEntities: 4, NullChance: 6} }
